@@ -5,6 +5,7 @@ func init() {
 		ID:    "C12",
 		Title: "Go data passed to a render is visible in the template with the same structure",
 		Rules: []string{
+			"R-PATHAPI (EvaluateFile): the file's content and the caller's data are handed to EvaluateString unchanged",
 			"R-ESCAPE (printing): no String method of package object calls a trimming, replacing, case-mapping, escaping or UTF-8 repairing function",
 			"R-KWTABLE: the keyword table holds exactly true, false, nil and in (any other word there is a data key that cannot be named)",
 			"R-FORMAT: no rendered text is used as a printf format (strings print their exact bytes)",
@@ -24,6 +25,7 @@ func init() {
 		NotDecided:  "TODO",
 		Assumptions: trustedBase,
 		Run: func(m *Model, s *Sink) {
+			m.RunEvalFile(s, "R-PATHAPI")                                    // the data of the call reaches the evaluation as it is
 			m.RunObjString(s, "R-ESCAPE")                                    // strings print their exact bytes: printing an object does not rewrite its text
 			m.RunKeywordTable(s, "R-KWTABLE")                                // no data key is shadowed by a keyword other than true, false, nil, in
 			m.RunFormat(s, "R-FORMAT", m.reachableFns(m.Roots().Render))     // a percent sign in a data string is not a verb
